@@ -126,10 +126,11 @@ func (store *fileStore) Reset() error {
 	if err := store.Close(); err != nil {
 		return errors.Wrap(err, "close")
 	}
-	if err := removeFile(store.bodyFname); err != nil {
+	// The index goes first: index lines must never outlive the bytes they point at.
+	if err := removeFile(store.headerFname); err != nil {
 		return err
 	}
-	if err := removeFile(store.headerFname); err != nil {
+	if err := removeFile(store.bodyFname); err != nil {
 		return err
 	}
 	if err := removeFile(store.sessionFname); err != nil {
